@@ -42,6 +42,10 @@ class StepHang(Exception):
     pass
 
 
+class ThreadKilled(BaseException):
+    """raised inside a parked virtual thread when its scheduler is disposed of"""
+
+
 class DoubleMisuse(Exception):
     """unknown attribute / impossible call on a double: machinery error, never a verdict"""
 
@@ -65,6 +69,7 @@ class VThread:
         self.idle_iters = 0
         self.progress = True
         self.where = []
+        self.rt = None
         self.ident = None
         self.holds = []
 
@@ -80,17 +85,24 @@ class VThread:
     def _boot(self):
         self.ident = _rt.get_ident()
         self.sem.acquire()
+        if self.sched.killed:
+            self.done = True
+            return
         if self.sched.opcode_funcs or self.sched.line_funcs:
             sys.settrace(self.sched._tracer)
         try:
             self.result = self.run()
+        except ThreadKilled:
+            self.done = True
+            return
         except BaseException as e:      # bromelia's exceptions derive from BaseException
             self.exc = e
         finally:
             sys.settrace(None)
         self.done = True
         self.pending = None
-        self.sched.main_sem.release()
+        if not self.sched.killed:
+            self.sched.main_sem.release()
 
     def join(self, timeout=None):
         if self.sched.cur is None:
@@ -124,6 +136,7 @@ class Sched:
         self.log_ops = False
         self.on_step = None
         self.idle_bias = 0.03
+        self.killed = False
 
     # ---- thread management
     def register(self, t):
@@ -131,6 +144,7 @@ class Sched:
         t.progress = True
         self.threads.append(t)
         rt = _rt.Thread(target=t._boot, daemon=True, name="v-" + t.name)
+        t.rt = rt
         rt.start()
 
     def spawn(self, name, target, *args):
@@ -150,8 +164,8 @@ class Sched:
         if t is None or _rt.get_ident() != t.ident:
             return False                 # set-up phase outside the scheduler: execute immediately
         kind = op[0]
-        if kind == "sleep" and (op[2] or 0) < SHORT:
-            # an iteration of a ticker ends here; IDLE_ITERS consecutive iterations without a write
+        if (kind == "sleep" and (op[2] or 0) < SHORT) or kind == "select":
+            # an iteration of a ticker (or of a selector loop) ends here; IDLE_ITERS consecutive iterations without a write
             # anywhere make the thread idle (it found nothing to do, repeatedly)
             t.idle_iters = 0 if t.progress else t.idle_iters + 1
             t.idle = t.idle_iters >= IDLE_ITERS
@@ -174,7 +188,20 @@ class Sched:
         t.where = where
         self.main_sem.release()
         t.sem.acquire()
+        if self.killed:
+            raise ThreadKilled()
         return t.timed_out
+
+    def kill_all(self):
+        """unwind every parked thread of this scheduler (frees the OS threads)"""
+        self.killed = True
+        for t in self.threads:
+            if not t.done and t.rt is not None:
+                for _ in range(50):
+                    t.sem.release()
+                    t.rt.join(0.02)
+                    if not t.rt.is_alive():
+                        break
 
     def wake_idle(self):
         for o in self.threads:
@@ -647,10 +674,7 @@ class FakeSelector(_Named):
 
     def select(self, timeout=None):
         cur_sched().yield_op(("select", self, timeout), write=False)
-        r = self._ready()
-        if r:
-            cur_sched().wake_idle()
-        return r
+        return self._ready()
 
     def close(self):
         self.map.clear()
